@@ -307,7 +307,7 @@ def instr_points(code, hot):
 
 class Task:
     __slots__ = ('i', 'sem', 'local', 'done', 'deadline', 'fn', 'thread', 'ident',
-                 'label', 'error', 'started', 'where', 'after_hot')
+                 'label', 'error', 'started', 'where', 'after_hot', 'blocked_on')
 
     def __init__(self, i, fn):
         self.i = i
@@ -323,6 +323,7 @@ class Task:
         self.started = False
         self.where = '<not-started>'     # code name at which this task is parked
         self.after_hot = False
+        self.blocked_on = None           # the simulated lock this task waits for (simkit.locks)
 
 
 def _on_line(code, line):
@@ -386,6 +387,8 @@ class Sim:
         self.ipoint_hits = 0
         self.ipoint_codes = []
         self.body_codes = 0     # bodies of modules under construction that were put under LINE events
+        self.lock_events = 0    # simulated locks taken by clients (simkit.locks)
+        self.lock_blocks = 0    # ... attempts that found the lock taken and handed the baton on
         self._main = threading.Semaphore(0)
         self.failed = None
 
@@ -464,8 +467,11 @@ class Sim:
     def _finish(self, t):
         t.done = True
         o = self.policy.on_end(self, t)
-        if o is None or o.done:
-            o = next((x for x in self.tasks if not x.done), None)
+        if o is None or o.done or self._stuck(o):
+            o = next((x for x in self.tasks if not x.done and not self._stuck(x)), None)
+            if o is None:
+                # only clients that wait for a taken lock are left: the one that runs next finds out that nobody can release it
+                o = next((x for x in self.tasks if not x.done), None)
         if o is None:
             self.cur = None
             self._main.release()
@@ -502,7 +508,29 @@ class Sim:
             self._switch(t, o, '<boundary>', 0)
 
     def others(self, t):
-        return [x for x in self.tasks if not x.done and x is not t]
+        return [x for x in self.tasks if not x.done and x is not t and not self._stuck(x)]
+
+    @staticmethod
+    def _stuck(x):
+        b = x.blocked_on
+        return b is not None and b.locked()
+
+    def block(self, t, lock):
+        """Client t found a simulated lock taken: somebody else runs (the scheduler's choice, recorded like any
+        switch); when nobody can, this is a deadlock."""
+        from .locks import Deadlock
+        cands = self.others(t)
+        if not cands:
+            raise Deadlock('no client can run: every one of them waits for a lock')
+        self.lock_blocks += 1
+        o = self.policy.on_block(self, t, cands)
+        if o is None or o not in cands:
+            o = cands[0]
+        t.blocked_on = lock
+        try:
+            self._switch(t, o, '<blocked>', 0)
+        finally:
+            t.blocked_on = None
 
 
 # ----------------------------------------------------------------------------- policies
@@ -521,6 +549,11 @@ class Policy:
 
     def on_instr(self, sim, t, code, offset):
         return None
+
+    def on_block(self, sim, t, cands):
+        """t waits for a simulated lock: who runs instead (one of cands)."""
+        r = getattr(self, 'rng', None)
+        return r.choice(cands) if r is not None else cands[0]
 
     def on_boundary(self, sim, t):
         return None
@@ -897,7 +930,7 @@ class Replay(Policy):
             elif len(sw) > 3 and sw[3] is not None:
                 self.itable.setdefault(f, {}).setdefault((n, sw[3]), to)
             else:
-                self.table.setdefault(f, {})[n] = to
+                self.table.setdefault(f, {}).setdefault(n, []).append(to)
         self.first_id = first
 
     def begin(self, sim):
@@ -912,11 +945,18 @@ class Replay(Policy):
         tab = self.table.get(t.i)
         if not tab:
             return None
-        to = tab.get(t.local)
+        lst = tab.get(t.local)
+        if not lst:
+            return None
+        to = lst.pop(0)         # several switches can share one line step (a line switch, then a blocked lock inside the line)
         if to is None or to >= len(sim.tasks):
             return None
         o = sim.tasks[to]
         return None if (o.done or o is t) else o
+
+    def on_block(self, sim, t, cands):
+        o = self._target(sim, t)
+        return o if o in cands else cands[0]
 
     def on_step(self, sim, t, code, line):
         return self._target(sim, t)
